@@ -39,6 +39,7 @@ def run(ctx):
                 "The returned edge must denote the operation for all values of atoms and decision variables, the new "
                 "node must respect the variable order, and a cache entry must be valid for its key.")
     n = estep.run(ctx, F, kinds=("zbdd",))
+    estep.check_zbdd_restrict_base(ctx, F)
     ctx.floor("E-TABLE.step", "situations of the recursive step (set operations, subset0/subset1/change, apply_ite, restrict)", n, 250)
     ctx.explain("E-TABLE.skip: DiagramRules::skipped_cofactor of every kind (override or trait default) is interpreted and must "
                 "yield the cofactors of an edge w.r.t. a variable above its node under the kind's semantics of a skipped level "
